@@ -265,6 +265,12 @@ func checkQuantifier(r *Run, prog *Program, a *Anchors, pfx string) {
 		r.Fail("unresolved-anchor", pfx+".fold", "CollectionBindMode", "", "binding modes not found")
 		return
 	}
+	// the evaluation functions may take the caller's option list, or the option set it folds to
+	structMode := false
+	if ot := optRoles(prog).optionsT; ot != nil && types.Identical(fn.Params[2].Type(), ot) {
+		structMode = true
+	}
+	bindingsField := optField(prog, "WithLocalVariable")
 	for _, oc := range prog.enumConsts(opT) {
 		isAll := oc.Name() == "CollectionOpAll"
 		isAny := oc.Name() == "CollectionOpAny"
@@ -275,6 +281,9 @@ func checkQuantifier(r *Run, prog *Program, a *Anchors, pfx string) {
 				ps := NewPathSim(prog)
 				ps.maxVisits = 3
 				ps.Inline = func(c *ssa.Function) bool {
+					if structMode && (c == wlv || (c.Parent() == wlv)) {
+						return true // the binding is pushed onto the option set directly: WithLocalVariable(…)(&inner)
+					}
 					return prog.InModule(c) && c != a.Dispatch && c != a.GetValue && c != wlv && c != a.GetOpts && c != a.MatchEval && !strings.HasPrefix(c.Name(), "With")
 				}
 				ps.Seed = func(st *pstate) {
@@ -401,6 +410,35 @@ func checkQuantifier(r *Run, prog *Program, a *Anchors, pfx string) {
 							probs = append(probs, "the body must be evaluated against the root datum")
 							continue
 						}
+						if structMode {
+							// the option set handed to the body: the incoming one, with the list of bindings replaced by a
+							// fresh copy of the incoming bindings followed by the new ones
+							inner := ev.Args[2]
+							okS := inner.K == sStruct && inner.A != nil && inner.A.Key() == pOpt.Key()
+							if okS {
+								for f := range inner.F {
+									if f != bindingsField {
+										okS = false
+									}
+								}
+							}
+							var bl *Sym
+							if okS {
+								bl = inner.F[bindingsField]
+							}
+							if bl == nil {
+								probs = append(probs, fmt.Sprintf("iteration %d: the option set handed to the body is not the incoming one with only its list of bindings replaced: %s", n, shortKey(inner)))
+								continue
+							}
+							base, parts := appendChain(sm.St, bl)
+							want := (&Sym{K: sField, A: pOpt, Str: bindingsField}).Key()
+							if !(base != nil && base.IsNil() && len(parts) >= 1 && parts[0].Args[1].Key() == want) {
+								probs = append(probs, fmt.Sprintf("iteration %d: the bindings handed to the body are not a fresh copy of the incoming bindings followed by the new ones (base %s)", n, shortKey(base)))
+								continue
+							}
+							probs = append(probs, checkBindings(prog, sm, wlv, pExpr, v, cls, int64(n), flattenAppended(sm.St, parts[1:], 0))...)
+							continue
+						}
 						base, parts := appendChain(sm.St, ev.Args[2])
 						okCopy := base != nil && base.IsNil() && len(parts) >= 1 && parts[0].Args[1].Key() == pOpt.Key()
 						if !okCopy && base != nil && base.K == sFresh && len(parts) >= 1 && parts[0].Args[1].Key() == pOpt.Key() {
@@ -499,11 +537,17 @@ func checkBindings(prog *Program, sm *Summary, wlv *ssa.Function, pExpr, v *Sym,
 				call = ev
 			}
 		}
-		if call == nil || call.Callee != wlv || len(call.Args) != 3 {
+		var name, path, val *Sym
+		if el.K == sStruct && len(el.F) >= 1 && (call == nil || call.Callee != wlv) {
+			// the binding itself (the record WithLocalVariable pushes), not the option that pushes it
+			name, path, val = bindingRecord(prog, el)
+		} else if call != nil && call.Callee == wlv && len(call.Args) == 3 {
+			name, path, val = call.Args[0], call.Args[1], call.Args[2]
+		}
+		if name == nil || path == nil || val == nil {
 			probs = append(probs, "an option appended for the body is not WithLocalVariable(name, path, value): "+shortKey(el))
 			continue
 		}
-		name, path, val := call.Args[0], call.Args[1], call.Args[2]
 		which := ""
 		for _, f := range []string{"Default", "Index", "Value"} {
 			if name.Key() == loadField(pExpr, "NameBinding", f).Key() {
@@ -1060,4 +1104,32 @@ func isLenMinusOne(v ssa.Value, s *ssa.Parameter) bool {
 	}
 	b, ok := l.Call.Value.(*ssa.Builtin)
 	return ok && b.Name() == "len" && len(l.Call.Args) == 1 && l.Call.Args[0] == ssa.Value(s)
+}
+
+// bindingRecord: name, path and value of a binding record (the struct WithLocalVariable appends), by the fields' types.
+func bindingRecord(prog *Program, el *Sym) (name, path, val *Sym) {
+	lt := prog.Bexpr.Types.Scope().Lookup("localVariable")
+	if lt == nil {
+		return nil, nil, nil
+	}
+	st, ok := lt.Type().Underlying().(*types.Struct)
+	if !ok {
+		return nil, nil, nil
+	}
+	for i := 0; i < st.NumFields(); i++ {
+		f := st.Field(i)
+		v := getPath(el, []string{f.Name()})
+		if v != nil && v.K == sStruct && v.A == nil && len(v.F) == 0 {
+			v = zeroSym(f.Type())
+		}
+		switch {
+		case types.Identical(f.Type(), types.Typ[types.String]):
+			name = v
+		case isStringSlice(f.Type()):
+			path = v
+		case isEmptyIface(f.Type()):
+			val = v
+		}
+	}
+	return
 }
